@@ -333,7 +333,7 @@ pub fn enumerate_faults(sc: &StreamScenario, calib: &Run, rng: &mut Rng, cap_pos
         let b = calib.accepted.len();
         for k in positions(b + 1, rng) {
             let mut kind = ERR_KINDS[(k + 5) % ERR_KINDS.len()];
-            if kind == ErrKind::Interrupted {
+            if kind.is_interrupted() {
                 kind = ErrKind::BrokenPipe;
             }
             if k < b {
